@@ -232,4 +232,411 @@ theorem sbm_arrays (h : Header) (s : Sbm α) (f : File α) (hs : saveSbm h s = s
   · simp [loadSbm, sbmOwn, File.f1, File.add, header, vF, vF2, List.lookup, at1, valF]
 end
 
+section
+variable [Num α]
+
+/-- what the constructor's treatment of the group-contribution array must leave unchanged
+    (dbm.py l.283-345), the shape of the array, the key set of the user data -/
+structure FluidWF (chem ucomp : List String) (f : Fluid α) : Prop where
+  comp : f.composition = chem
+  keys : f.user_data = [] ∨ f.user_data.map (·.name) = ucomp
+  nodup : (f.user_data.map (·.name)).Nodup
+  props : ∀ u ∈ f.user_data, u.props.length = 13
+  calcd : f.calc_delta ≠ 0
+  groups : normGroups chem.length f.delta_groups = (f.calc_delta, f.delta_groups)
+
+/-- attributes a particle class does not have are at their defaults -/
+def Canon (pt : Nat) (p : Particle α) : Prop :=
+  (pt = 0 → p.nb0 = 0 ∧ p.lambda_1 = 0) ∧
+  (pt ≠ 2 → p.nbe = 0 ∧ p.integrate = false ∧ p.sim_stored = false ∧ p.farfield = false ∧ p.tp = 0 ∧
+    p.xp = 0 ∧ p.yp = 0 ∧ p.zp = 0 ∧ p.exit = none)
+
+structure ParticleWF (pt : Nat) (chem ucomp : List String) (Ta : α) (p : Particle α) : Prop where
+  dbm : match p.dbm with
+    | .fluid f => FluidWF chem ucomp f
+    | .insol _ => p.m0.length = 1
+  canon : Canon pt p
+  exit_pos : ∀ e, p.exit = some e → 0 < e.1
+  heat : pt ≥ 1 → ¬ (0 < p.K_T ∧ Num.abs (Ta - p.T0) < 0.5)
+
+theorem take_map_length {β γ : Type} (l : List β) (g : β → γ) : (l.map g).take l.length = l.map g := by
+  apply List.take_of_length_le; simp
+
+theorem map_valF_some (l : List α) : (l.map some).map valF = l := by
+  rw [List.map_map]; simp [Function.comp_def, valF]
+
+theorem map2_valF_some (l : List (List α)) : (l.map (·.map some)).map (·.map valF) = l := by
+  rw [List.map_map]
+  conv => rhs; rw [← List.map_id l]
+  apply List.map_congr_left
+  intro r _
+  simp [Function.comp_def, valF]
+
+/-- the user data of particle `i` as the reader rebuilds them -/
+theorem loadUser_mkTable (pt : Nat) (chem ucomp : List String) (ps : List (Particle α)) (KT0 : List α)
+    (ta : List (Cell α)) (i : Nat) (hi : i < ps.length) (f : Fluid α) (hf : ps[i].dbm = .fluid f)
+    (huc : userComposition ps = (ucomp.length, ucomp)) (hne : f.user_data ≠ [])
+    (wf : FluidWF chem ucomp f) :
+    loadUser { mkTable pt chem ps KT0 with Ta := ta } i = f.user_data.map UserChem.forget := by
+  have hnames : f.user_data.map (·.name) = ucomp := by
+    rcases wf.keys with h | h
+    · exact absurd h hne
+    · exact h
+  have hlen : ucomp.length = f.user_data.length := by rw [← hnames]; simp
+  have hpos : ucomp.length > 0 := by
+    rw [hlen]; exact List.length_pos_of_ne_nil hne
+  unfold loadUser
+  simp only [mkTable, huc, hpos, if_true]
+  rw [hlen]
+  apply List.ext_getElem
+  · simp
+  · intro j h1 h2
+    have hj : j < f.user_data.length := by simpa using h1
+    have hju : j < ucomp.length := by rw [hlen]; exact hj
+    have hname : ucomp.getD j "" = f.user_data[j].name := by
+      simp only [← hnames]
+      simp [List.getD, hj]
+    have hname' : ucomp[j] = f.user_data[j].name := by
+      simp only [← hnames]; simp
+    simp only [List.getElem_map, List.getElem_range, UserChem.forget, hname]
+    congr 1
+    have hprops := wf.props _ (List.getElem_mem hj)
+    conv => rhs; rw [← range_map_getD f.user_data[j].props 13 0 hprops]
+    apply List.map_congr_left
+    intro k hk
+    have hk13 : k < 13 := List.mem_range.mp hk
+    have hget : (List.map (fun k => List.map (userRow ucomp k) ps) (List.range 13)).getD k [] =
+        List.map (userRow ucomp k) ps := by
+      simp [List.getD, hk13]
+    rw [hget]
+    unfold at2
+    simp only [List.getElem?_map, List.getElem?_eq_getElem hi, Option.map_some, Option.bind_some]
+    have hemp : f.user_data.isEmpty = false := by
+      cases hud : f.user_data with
+      | nil => exact absurd hud hne
+      | cons _ _ => rfl
+    simp only [userRow, hf, hemp]
+    simp only [Bool.false_eq_true, if_false, List.getElem?_map, List.getElem?_eq_getElem hju, Option.map_some,
+      hname', findUser_nodup _ wf.nodup j hj, Option.join, Option.bind_some, valF, Option.getD_some, id]
+
+@[simp] theorem valF_some (x : α) : valF (some x) = x := rfl
+@[simp] theorem valI_some (x : Int) : valI (some x) = x := rfl
+@[simp] theorem truthy_some (x : Int) : truthy (some x) = (x != 0) := rfl
+
+theorem valI_ptype (pt : Nat) : valI (at1 [some (Int.ofNat pt)] 0) = Int.ofNat pt := by
+  simp [at1, valI]
+
+theorem b2i_truthy (b : Bool) : ((if b = true then (1 : Int) else 0) != 0) = b := by
+  cases b <;> rfl
+
+theorem singleton_head (l : List α) (h : l.length = 1) : [l.head?.getD 0] = l := by
+  match l, h with
+  | [x], _ => rfl
+
+theorem prod4_eta (e : α × α × α × α) : (e.1, e.2.1, e.2.2.1, e.2.2.2) = e := by
+  rcases e with ⟨a, b, c, d⟩; rfl
+
+/-- the reader applied to the writer's table gives back particle `i`, up to the fields
+    the file does not hold -/
+theorem loadParticleT_mkTable (pt : Nat) (hpt : pt ≤ 2) (chem ucomp : List String) (ps : List (Particle α))
+    (ta : List (Cell α)) (i : Nat) (hi : i < ps.length)
+    (hwf : ∀ p ∈ ps, ParticleWF pt chem ucomp (valF (at1 ta 0)) p) :
+    loadParticleT { mkTable pt chem ps (ps.map (·.K_T)) with Ta := ta } i = ps[i].forget := by
+  have wf := hwf _ (List.getElem_mem hi)
+  have hk : ∀ p ∈ ps, ∀ f, p.dbm = .fluid f → f.user_data = [] ∨ f.user_data.map (·.name) = ucomp := by
+    intro p hp f hf
+    have := (hwf p hp).dbm
+    rw [hf] at this
+    exact this.keys
+  have huc := userComposition_inv ucomp ps hk
+  obtain ⟨wdbm, wcanon, wexit, wheat⟩ := wf
+  obtain ⟨wc0, wc2⟩ := wcanon
+  have hat2 : ∀ (g : Particle α → List (Cell α)) (j : Nat), at2 (ps.map g) i j = ((g ps[i])[j]?).join := by
+    intro g j
+    simp [at2, List.getElem?_map, List.getElem?_eq_getElem hi]
+  have hgetD : ∀ {β : Type} (g : Particle α → β) (d : β), (ps.map g).getD i d = g ps[i] := by
+    intro β g d
+    simp [List.getD, List.getElem?_eq_getElem hi]
+  have hK : pt ≥ 1 → (decide (0 < ps[i].K_T) && decide (Num.abs (valF (at1 ta 0) - ps[i].T0) < 0.5)) = false := by
+    intro h1
+    have := wheat h1
+    cases h2 : decide (0 < ps[i].K_T) <;> cases h3 : decide (Num.abs (valF (at1 ta 0) - ps[i].T0) < 0.5) <;> simp_all
+  have hexit : (match ps[i].exit.map (·.1) with
+      | some te => if 0 < te then some (te, valF (ps[i].exit.map (·.2.1)), valF (ps[i].exit.map (·.2.2.1)),
+          valF (ps[i].exit.map (·.2.2.2))) else none
+      | none => none) = ps[i].exit := by
+    cases he : ps[i].exit with
+    | none => rfl
+    | some e =>
+      have := wexit e he
+      simp [this, prod4_eta]
+  -- the user data and the dbm object
+  have hdbm : ∀ f, ps[i].dbm = .fluid f →
+      (if truthy (some (if f.user_data.isEmpty = true then (0 : Int) else 1)) = true then
+        loadUser { mkTable pt chem ps (ps.map (·.K_T)) with Ta := ta } i else []) = f.user_data.map UserChem.forget := by
+    intro f hf
+    cases hud : f.user_data with
+    | nil => simp [truthy]
+    | cons u us =>
+      have hne : f.user_data ≠ [] := by rw [hud]; simp
+      have wff : FluidWF chem ucomp f := by rw [hf] at wdbm; exact wdbm
+      rcases huc with h | ⟨_, h⟩
+      · rw [← hud]
+        simp only [hud, List.isEmpty_cons, truthy, Bool.false_eq_true, if_false]
+        rw [← hud]
+        simpa using loadUser_mkTable pt chem ucomp ps _ ta i hi f hf h hne wff
+      · exact absurd (h _ (List.getElem_mem hi) f hf) hne
+  cases hd : ps[i].dbm with
+  | insol ins =>
+    rw [hd] at wdbm
+    simp only at wdbm
+    have hm0 := singleton_head _ wdbm
+    rcases (by omega : pt = 0 ∨ pt = 1 ∨ pt = 2) with rfl | rfl | rfl
+    ·
+      obtain ⟨c1, c2⟩ := wc0 rfl
+      obtain ⟨d1, d2, d3, d4, d5, d6, d7, d8, d9⟩ := wc2 (by decide)
+      simp only [loadParticleT, mkTable, valI_ptype, take_map_length, List.map_map, Function.comp_def,
+        hat2, hgetD, m0Row, hd, Particle.forget, ge_iff_le, Nat.le_refl, if_true, if_false,
+        show ¬ ((0:Nat) ≥ 1) by decide, show ((2:Nat) ≥ 1) by decide, show ¬ ((0:Nat) = 2) by decide,
+        show ¬ ((1:Nat) = 2) by decide, at1_map_get _ _ _ hi, valF_some, valI_some, truthy_some, hexit]
+      simp [hexit, b2i, hm0, b2i_truthy, c1, c2, d1, d2, d3, d4, d5, d6, d7, d8, d9]
+    ·
+      obtain ⟨d1, d2, d3, d4, d5, d6, d7, d8, d9⟩ := wc2 (by decide)
+      have hK := hK (by decide)
+      simp only [loadParticleT, mkTable, valI_ptype, take_map_length, List.map_map, Function.comp_def,
+        hat2, hgetD, m0Row, hd, Particle.forget, ge_iff_le, Nat.le_refl, if_true, if_false,
+        show ¬ ((0:Nat) ≥ 1) by decide, show ((2:Nat) ≥ 1) by decide, show ¬ ((0:Nat) = 2) by decide,
+        show ¬ ((1:Nat) = 2) by decide, at1_map_get _ _ _ hi, valF_some, valI_some, truthy_some, hexit]
+      simp [hexit, b2i, hm0, b2i_truthy, hK, d1, d2, d3, d4, d5, d6, d7, d8, d9]
+    ·
+      have hK := hK (by decide)
+      simp only [loadParticleT, mkTable, valI_ptype, take_map_length, List.map_map, Function.comp_def,
+        hat2, hgetD, m0Row, hd, Particle.forget, ge_iff_le, Nat.le_refl, if_true, if_false,
+        show ¬ ((0:Nat) ≥ 1) by decide, show ((2:Nat) ≥ 1) by decide, show ¬ ((0:Nat) = 2) by decide,
+        show ¬ ((1:Nat) = 2) by decide, at1_map_get _ _ _ hi, valF_some, valI_some, truthy_some, hexit]
+      simp [hexit, b2i, hm0, b2i_truthy, hK]
+      exact hexit
+  | fluid f =>
+    have wff : FluidWF chem ucomp f := by rw [hd] at wdbm; exact wdbm
+    have hU := hdbm f hd
+    have hcd : (f.calc_delta != 0) = true := by simpa using wff.calcd
+    rcases (by omega : pt = 0 ∨ pt = 1 ∨ pt = 2) with rfl | rfl | rfl
+    ·
+      obtain ⟨c1, c2⟩ := wc0 rfl
+      obtain ⟨d1, d2, d3, d4, d5, d6, d7, d8, d9⟩ := wc2 (by decide)
+      simp only [loadParticleT, mkTable, valI_ptype, take_map_length, List.map_map, Function.comp_def,
+        hat2, hgetD, m0Row, hd, Particle.forget, ge_iff_le, Nat.le_refl, if_true, if_false,
+        show ¬ ((0:Nat) ≥ 1) by decide, show ((2:Nat) ≥ 1) by decide, show ¬ ((0:Nat) = 2) by decide,
+        show ¬ ((1:Nat) = 2) by decide, at1_map_get _ _ _ hi, valF_some, valI_some, truthy_some, hexit] at hU ⊢
+      simp only [hcd, if_true, map2_valF_some, map_valF_some, mkFluid, wff.groups]
+      rw [hU]
+      simp [hexit, b2i, b2i_truthy, hU, wff.comp, c1, c2, d1, d2, d3, d4, d5, d6, d7, d8, d9]
+    ·
+      obtain ⟨d1, d2, d3, d4, d5, d6, d7, d8, d9⟩ := wc2 (by decide)
+      have hK := hK (by decide)
+      simp only [loadParticleT, mkTable, valI_ptype, take_map_length, List.map_map, Function.comp_def,
+        hat2, hgetD, m0Row, hd, Particle.forget, ge_iff_le, Nat.le_refl, if_true, if_false,
+        show ¬ ((0:Nat) ≥ 1) by decide, show ((2:Nat) ≥ 1) by decide, show ¬ ((0:Nat) = 2) by decide,
+        show ¬ ((1:Nat) = 2) by decide, at1_map_get _ _ _ hi, valF_some, valI_some, truthy_some, hexit] at hU ⊢
+      simp only [hcd, if_true, map2_valF_some, map_valF_some, mkFluid, wff.groups]
+      rw [hU]
+      simp [hexit, b2i, b2i_truthy, hU, wff.comp, hK, d1, d2, d3, d4, d5, d6, d7, d8, d9]
+    ·
+      have hK := hK (by decide)
+      simp only [loadParticleT, mkTable, valI_ptype, take_map_length, List.map_map, Function.comp_def,
+        hat2, hgetD, m0Row, hd, Particle.forget, ge_iff_le, Nat.le_refl, if_true, if_false,
+        show ¬ ((0:Nat) ≥ 1) by decide, show ((2:Nat) ≥ 1) by decide, show ¬ ((0:Nat) = 2) by decide,
+        show ¬ ((1:Nat) = 2) by decide, at1_map_get _ _ _ hi, valF_some, valI_some, truthy_some, hexit] at hU ⊢
+      simp only [hcd, if_true, map2_valF_some, map_valF_some, mkFluid, wff.groups]
+      rw [hU]
+      simp [hexit, b2i, b2i_truthy, hU, wff.comp, hK]
+      exact hexit
+end
+
+section
+variable [Num α]
+
+theorem userComposition_fst_snd (ps : List (Particle α)) :
+    (userComposition ps).1 = 0 → (userComposition ps).2 = [] := by
+  unfold userComposition
+  suffices H : ∀ acc : Nat × List String, acc.2.length = acc.1 →
+      (ps.foldl (fun acc p => match p.dbm with
+        | .fluid f => if f.user_data.length > acc.1 then (f.user_data.length, f.user_data.map (·.name)) else acc
+        | .insol _ => acc) acc).2.length =
+      (ps.foldl (fun acc p => match p.dbm with
+        | .fluid f => if f.user_data.length > acc.1 then (f.user_data.length, f.user_data.map (·.name)) else acc
+        | .insol _ => acc) acc).1 by
+    intro h0
+    have := H (0, []) rfl
+    exact List.eq_nil_of_length_eq_zero (this.trans h0)
+  induction ps with
+  | nil => intro acc h; simpa using h
+  | cons p ps ih =>
+    intro acc h
+    simp only [List.foldl_cons]
+    apply ih
+    cases p.dbm with
+    | insol i => simpa using h
+    | fluid f =>
+      simp only
+      split
+      · simp
+      · exact h
+
+theorem mkTable_ok (pt : Nat) (chem : List String) (ps : List (Particle α)) (KT0 : List α) :
+    TableOK pt (mkTable pt chem ps KT0) := by
+  refine ⟨?_, ?_, ?_, ?_, rfl⟩
+  · intro h
+    simp only [mkTable] at h ⊢
+    simp [h]
+  · intro h
+    simp only [mkTable] at h ⊢
+    simp [h, userComposition_fst_snd ps h]
+  · intro h; subst h; simp [mkTable]
+  · intro h
+    simp [mkTable, h]
+
+theorem ofFile_bpm (h : Header) (s : Bpm α) (c : α) (t : Table α) (ok : TableOK 2 t) :
+    Table.ofFile ((header h).add ((bpmOwn s c).add (t.toFile 2))) = { t with Ta := [some s.Ta] } := by
+  obtain ⟨ul, un, pn, bn, ta⟩ := ok
+  rcases t with ⟨composition, user_composition, nparticles, nchems, next_chems, particle_type, issoluble, isair, isfluid, iscompressible, calc_delta, extern_data, fp_type, rho_p, gamma, beta, co, sigma_correction, delta_groups, m0, T0, K, K_T, fdis, t_hyd, nb0, lambda_1, nbe, integrate, sim_stored, farfield, tp, xp, yp, zp, te, xe, ye, ze, user, Ta⟩
+  simp only at ul un ta
+  by_cases hn : next_chems > 0
+  · have hu := list13 _ [] (ul hn)
+    simp [Table.ofFile, Table.toFile, File.add, header, bpmOwn, p1, File.i1, File.f1, File.f2, File.f3, File.names,
+      File.dim, List.lookup, vI, vF, vF2, hn, userVars, List.range, List.range.loop, hu]
+  · have h0 : next_chems = 0 := by omega
+    obtain ⟨u1, u2⟩ := un h0
+    subst h0 u1 u2
+    simp [Table.ofFile, Table.toFile, File.add, header, bpmOwn, p1, File.i1, File.f1, File.f2, File.f3, File.names,
+      File.dim, List.lookup, vI, vF, vF2]
+
+theorem ofFile_spm (h : Header) (s : Spm α) (t : Table α) (ok : TableOK 1 t) :
+    Table.ofFile ((header h).add ((spmOwn s).add (t.toFile 1))) = { t with Ta := [some s.Ta] } := by
+  obtain ⟨ul, un, pn, bn, ta⟩ := ok
+  have bn := bn (by decide)
+  rcases t with ⟨composition, user_composition, nparticles, nchems, next_chems, particle_type, issoluble, isair, isfluid, iscompressible, calc_delta, extern_data, fp_type, rho_p, gamma, beta, co, sigma_correction, delta_groups, m0, T0, K, K_T, fdis, t_hyd, nb0, lambda_1, nbe, integrate, sim_stored, farfield, tp, xp, yp, zp, te, xe, ye, ze, user, Ta⟩
+  simp only at ul un bn ta
+  obtain ⟨b1, b2, b3, b4, b5, b6, b7, b8, b9, b10, b11, b12⟩ := bn
+  subst b1 b2 b3 b4 b5 b6 b7 b8 b9 b10 b11 b12
+  by_cases hn : next_chems > 0
+  · have hu := list13 _ [] (ul hn)
+    simp [Table.ofFile, Table.toFile, File.add, header, spmOwn, p1, File.i1, File.f1, File.f2, File.f3, File.names,
+      File.dim, List.lookup, vI, vF, vF2, hn, userVars, List.range, List.range.loop, hu]
+  · have h0 : next_chems = 0 := by omega
+    obtain ⟨u1, u2⟩ := un h0
+    subst h0 u1 u2
+    simp [Table.ofFile, Table.toFile, File.add, header, spmOwn, p1, File.i1, File.f1, File.f2, File.f3, File.names,
+      File.dim, List.lookup, vI, vF, vF2]
+
+/-- the particle part alone, with the ambient temperature the plume-particle constructors need -/
+theorem ofFile_plain (Ta : α) (pt : Nat) (hpt : pt ≤ 2) (t : Table α) (ok : TableOK pt t) :
+    Table.ofFile ((taFile Ta).add (t.toFile pt)) = { t with Ta := [some Ta] } := by
+  obtain ⟨ul, un, pn, bn, ta⟩ := ok
+  rcases t with ⟨composition, user_composition, nparticles, nchems, next_chems, particle_type, issoluble, isair, isfluid, iscompressible, calc_delta, extern_data, fp_type, rho_p, gamma, beta, co, sigma_correction, delta_groups, m0, T0, K, K_T, fdis, t_hyd, nb0, lambda_1, nbe, integrate, sim_stored, farfield, tp, xp, yp, zp, te, xe, ye, ze, user, Ta'⟩
+  simp only at ul un pn bn ta
+  rcases (by omega : pt = 0 ∨ pt = 1 ∨ pt = 2) with rfl | rfl | rfl
+  · obtain ⟨p1', p2'⟩ := pn rfl
+    obtain ⟨b1, b2, b3, b4, b5, b6, b7, b8, b9, b10, b11, b12⟩ := bn (by decide)
+    subst p1' p2' b1 b2 b3 b4 b5 b6 b7 b8 b9 b10 b11 b12
+    by_cases hn : next_chems > 0
+    · have hu := list13 _ [] (ul hn)
+      simp [Table.ofFile, Table.toFile, File.add, taFile, File.i1, File.f1, File.f2, File.f3, File.names,
+        File.dim, List.lookup, vI, vF, vF2, hn, userVars, List.range, List.range.loop, hu]
+    · have h0 : next_chems = 0 := by omega
+      obtain ⟨u1, u2⟩ := un h0
+      subst h0 u1 u2
+      simp [Table.ofFile, Table.toFile, File.add, taFile, File.i1, File.f1, File.f2, File.f3, File.names,
+        File.dim, List.lookup, vI, vF, vF2]
+  · obtain ⟨b1, b2, b3, b4, b5, b6, b7, b8, b9, b10, b11, b12⟩ := bn (by decide)
+    subst b1 b2 b3 b4 b5 b6 b7 b8 b9 b10 b11 b12
+    by_cases hn : next_chems > 0
+    · have hu := list13 _ [] (ul hn)
+      simp [Table.ofFile, Table.toFile, File.add, taFile, File.i1, File.f1, File.f2, File.f3, File.names,
+        File.dim, List.lookup, vI, vF, vF2, hn, userVars, List.range, List.range.loop, hu]
+    · have h0 : next_chems = 0 := by omega
+      obtain ⟨u1, u2⟩ := un h0
+      subst h0 u1 u2
+      simp [Table.ofFile, Table.toFile, File.add, taFile, File.i1, File.f1, File.f2, File.f3, File.names,
+        File.dim, List.lookup, vI, vF, vF2]
+  · by_cases hn : next_chems > 0
+    · have hu := list13 _ [] (ul hn)
+      simp [Table.ofFile, Table.toFile, File.add, taFile, File.i1, File.f1, File.f2, File.f3, File.names,
+        File.dim, List.lookup, vI, vF, vF2, hn, userVars, List.range, List.range.loop, hu]
+    · have h0 : next_chems = 0 := by omega
+      obtain ⟨u1, u2⟩ := un h0
+      subst h0 u1 u2
+      simp [Table.ofFile, Table.toFile, File.add, taFile, File.i1, File.f1, File.f2, File.f3, File.names,
+        File.dim, List.lookup, vI, vF, vF2]
+
+end
+
+section
+variable [Num α]
+
+theorem saveTable_some (pt : Nat) (chem : List String) (ps : List (Particle α)) (KT0 : List α) (t : Table α)
+    (h : saveTable pt chem ps KT0 = some t) : t = mkTable pt chem ps KT0 := by
+  unfold saveTable at h
+  split at h
+  · exact (Option.some.inj h).symm
+  · cases h
+
+theorem loadParticlesT_mkTable (pt : Nat) (hpt : pt ≤ 2) (chem ucomp : List String) (ps : List (Particle α))
+    (ta : List (Cell α)) (hwf : ∀ p ∈ ps, ParticleWF pt chem ucomp (valF (at1 ta 0)) p) :
+    loadParticlesT { mkTable pt chem ps (ps.map (·.K_T)) with Ta := ta } = (ps.map Particle.forget, chem) := by
+  unfold loadParticlesT
+  refine Prod.ext ?_ ?_
+  · simp only
+    apply List.ext_getElem
+    · simp [mkTable]
+    · intro i h1 h2
+      have hi : i < ps.length := by simpa using h2
+      simp only [List.getElem_map, List.getElem_range]
+      exact loadParticleT_mkTable pt hpt chem ucomp ps ta i hi hwf
+  · simp [mkTable]
+
+theorem ParticleWF.ta_irrel {chem ucomp : List String} {Ta Ta' : α} {p : Particle α}
+    (h : ParticleWF 0 chem ucomp Ta p) : ParticleWF 0 chem ucomp Ta' p :=
+  ⟨h.dbm, h.canon, h.exit_pos, fun h0 => absurd h0 (by decide)⟩
+
+theorem forget_K_T (ps : List (Particle α)) : (ps.map Particle.forget).map (·.K_T) = ps.map (·.K_T) := by
+  rw [List.map_map]; rfl
+
+/-- rows of the stored time column of the bent plume model -/
+theorem col0_roundtrip (t : List α) :
+    (List.range t.length).map (fun r => valF (at2 (t.map fun x => [some x]) r 0)) = t := by
+  apply List.ext_getElem
+  · simp
+  · intro i h1 h2
+    have hi : i < t.length := by simpa using h1
+    simp [at2, hi, valF]
+
+theorem tab_roundtrip (y : List (List α)) (nr nz nc : Nat) (hr : y.length = nr) (hz : nr ≤ nz)
+    (hc : ∀ row ∈ y, row.length = nc) :
+    tabulate2 nr nc (fun r c => valF (at2 (tabulate2 nz nc fun r c => (y[r]?).bind (·[c]?)) r c)) = y := by
+  apply tabulate2_eq _ _ _ _ hr hc
+  intro r c h1 h2
+  have hcc : c < nc := by rw [← hc _ (List.getElem_mem h1)]; exact h2
+  rw [at2_tabulate2 _ _ _ _ _ (by omega) hcc]
+  simp [h1, h2, valF]
+
+theorem zcol_roundtrip (zi zo : List α) :
+    (List.range zi.length).map (fun r => valF (at2 ((List.range (Nat.max zi.length zo.length)).map fun r => [zi[r]?, zo[r]?]) r 0)) = zi ∧
+    (List.range zo.length).map (fun r => valF (at2 ((List.range (Nat.max zi.length zo.length)).map fun r => [zi[r]?, zo[r]?]) r 1)) = zo := by
+  constructor
+  · apply List.ext_getElem
+    · simp
+    · intro i h1 h2
+      have hi : i < zi.length := by simpa using h1
+      have hm : i < Nat.max zi.length zo.length := Nat.lt_of_lt_of_le hi (Nat.le_max_left _ _)
+      simp [at2, hi, hm, valF]
+  · apply List.ext_getElem
+    · simp
+    · intro i h1 h2
+      have hi : i < zo.length := by simpa using h1
+      have hm : i < Nat.max zi.length zo.length := Nat.lt_of_lt_of_le hi (Nat.le_max_right _ _)
+      simp [at2, hi, hm, valF]
+
+end
+
 end TamocV.Lemmas.C18
